@@ -1,30 +1,38 @@
 (** Property C09 — stacks are linearizable LIFO, with or without elimination.
-    Only statements here; proofs live in LV.Proofs.TreiberProofs / LV.Proofs.ElimProofs.
+    Only statements here; proofs live in LV.Proofs.TreiberProofs / ElimProofs / TreiberStackFacts.
 
     [hist tr] is the invoke/response history read off a trace: "inv_push v" / "ret_push b" / "inv_pop" /
     "ret_pop b v" events of thread t become HInv t (Push v) / HRes t (RBool b) / HInv t Pop /
     HRes t (RVal (Some v | None)).  [linearizable Stack h] is Herlihy-Wing linearizability w.r.t. the
     sequential LIFO specification LV.Spec.Specs.Stack (LV.Base.Lin).
 
-    HYPOTHESIS BUILT INTO THE MODELS (smr_safe, DESIGN 4): a stack node is named by (allocating thread, index of
-    the push) and is never allocated twice; i.e. no node is recycled while a hazard pointer validated by
-    Guard::protect can still reach it.  This is what cds::gc::HP provides (property C01) and it is what rules out
-    ABA at pop's compare-and-swap; it is NOT re-proved here. *)
+    HYPOTHESES BUILT INTO THE MODELS (not re-proved here):
+    (smr_safe, DESIGN 4) a stack node is named by (allocating thread, index of the push) and is never allocated
+      twice: no node is recycled while a hazard pointer validated by Guard::protect can still reach it.  This is
+      what cds::gc::HP provides (property C01); it is what rules out ABA at pop's compare-and-swap.
+    (slot lock) the plain accesses made under collisions[i].lock are one model step together with the first atomic
+      access after the acquisition; their atomicity in the real code is the mutual exclusion of cds::sync::spin_lock
+      (property C22).
+    Sequential consistency; compare_exchange_weak does not fail spuriously. *)
 From Coq Require Import ZArith List String.
-From LV Require Import Base.Conc Base.Events Base.Lin Spec.Specs Model.Treiber Proofs.TreiberProofs.
+From LV Require Import Base.Conc Base.Events Base.Lin Spec.Specs.
+From LV Require Model.Treiber Model.Elim Proofs.TreiberProofs Proofs.ElimProofs Proofs.TreiberStackFacts.
 Import ListNotations.
 Local Open Scope Z_scope.
 Local Open Scope string_scope.
 
-(** cds::container::TreiberStack<cds::gc::HP,int> without elimination: for every number of threads, every
-    client program of push / pop operations, every loop fuel and EVERY schedule (every sequence of thread
-    choices), the history of every reachable configuration is the erasure of a trace with valid
-    linearization points (successful m_Top CAS; validated null load for an empty pop) ... *)
+Notation hist := TreiberProofs.hist.
+
+(** ** cds::container::TreiberStack<cds::gc::HP,int> without elimination (LV.Model.Treiber)
+
+    For every number of threads, every client program of push / pop operations, every loop fuel and EVERY
+    schedule (every sequence of thread choices), the history of every reachable configuration is the erasure of a
+    trace with valid linearization points (successful m_Top CAS; validated null load for an empty pop) ... *)
 Theorem C09_treiber_lp_valid :
   forall (fuel : nat) (ths : list (list Treiber.op)) c,
     Conc.reach (Treiber.init_cfg fuel ths) c ->
     exists atr, lp_valid Stack atr /\ erase atr = hist (Conc.trace c).
-Proof. exact treiber_lp_valid. Qed.
+Proof. exact TreiberProofs.treiber_lp_valid. Qed.
 Print Assumptions C09_treiber_lp_valid.
 
 (** ... hence linearizable to a sequential LIFO stack. *)
@@ -32,23 +40,104 @@ Theorem C09_treiber_linearizable :
   forall (fuel : nat) (ths : list (list Treiber.op)) c,
     Conc.reach (Treiber.init_cfg fuel ths) c ->
     linearizable Stack (hist (Conc.trace c)).
-Proof. exact treiber_linearizable. Qed.
+Proof. exact TreiberProofs.treiber_linearizable. Qed.
 Print Assumptions C09_treiber_linearizable.
 
 (** the m_pNext chain from m_Top is always finite, null-terminated and duplicate free *)
 Theorem C09_treiber_chain_wellformed :
   forall (fuel : nat) (ths : list (list Treiber.op)) c,
     Conc.reach (Treiber.init_cfg fuel ths) c ->
-    exists l, chain (next (Conc.shared c)) (top (Conc.shared c)) l /\ NoDup l.
-Proof. exact treiber_chain_wellformed. Qed.
+    exists l, TreiberProofs.chain (Treiber.next (Conc.shared c)) (Treiber.top (Conc.shared c)) l /\ NoDup l.
+Proof. exact TreiberProofs.treiber_chain_wellformed. Qed.
 Print Assumptions C09_treiber_chain_wellformed.
 
-(** non-vacuity: a concrete 2-thread run with a contended CAS in which three pops return (two values, one
-    empty) and whose history has 10 events *)
+(** ** the same stack WITH elimination back-off (LV.Model.Elim)
+
+    For every collision-array capacity, every list of random numbers per thread, every number of threads, every
+    client program, every loop fuel and EVERY schedule: valid linearization points exist — at a collision the
+    active collider's store of op_collided is the linearization point of BOTH operations (push, then pop) ... *)
+Theorem C09_treiber_elim_lp_valid :
+  forall (fuel cap : nat) (ths : list (list nat * list Elim.op)) c,
+    Conc.reach (Elim.init_cfg fuel cap ths) c ->
+    exists atr, lp_valid Stack atr /\ erase atr = hist (Conc.trace c).
+Proof. exact ElimProofs.treiber_elim_lp_valid. Qed.
+Print Assumptions C09_treiber_elim_lp_valid.
+
+Theorem C09_treiber_elim_linearizable :
+  forall (fuel cap : nat) (ths : list (list nat * list Elim.op)) c,
+    Conc.reach (Elim.init_cfg fuel cap ths) c ->
+    linearizable Stack (hist (Conc.trace c)).
+Proof. exact ElimProofs.treiber_elim_linearizable. Qed.
+Print Assumptions C09_treiber_elim_linearizable.
+
+(** ** "An eliminated push/pop pair delivers the pushed item to exactly one popper"
+
+    History level, for both models (and for every linearizable stack history): a pop returns only items some
+    push carries, and — push values being pairwise distinct — no item is returned by two pops.  Together with
+    the linearization points above (the collision linearizes the pop with the partner's item as its result, and
+    [lp_valid] forces the response to be that result) this is the client-visible content of the sentence. *)
+Theorem C09_pop_no_invention :
+  forall h : history Stack, linearizable Stack h ->
+    forall i v, TreiberStackFacts.pop_returns h i (Some v) -> TreiberStackFacts.pushed h v.
+Proof. exact TreiberStackFacts.stack_no_invention. Qed.
+Print Assumptions C09_pop_no_invention.
+
+Theorem C09_item_to_at_most_one_popper :
+  forall h : history Stack, linearizable Stack h -> TreiberStackFacts.distinct_pushes h ->
+    forall i1 i2 v, TreiberStackFacts.pop_returns h i1 (Some v) -> TreiberStackFacts.pop_returns h i2 (Some v) -> i1 = i2.
+Proof. exact TreiberStackFacts.stack_at_most_once. Qed.
+Print Assumptions C09_item_to_at_most_one_popper.
+
+(** [elim_exactly_one_popper_partial]: the two facts instantiated on the elimination model *)
+Theorem C09_elim_exactly_one_popper_partial :
+  forall (fuel cap : nat) (ths : list (list nat * list Elim.op)) c,
+    Conc.reach (Elim.init_cfg fuel cap ths) c ->
+    let h := hist (Conc.trace c) in
+    (forall i v, TreiberStackFacts.pop_returns h i (Some v) -> TreiberStackFacts.pushed h v) /\
+    (TreiberStackFacts.distinct_pushes h ->
+     forall i1 i2 v, TreiberStackFacts.pop_returns h i1 (Some v) -> TreiberStackFacts.pop_returns h i2 (Some v) -> i1 = i2).
+Proof.
+  intros fuel cap ths c Hr h. pose proof (ElimProofs.treiber_elim_linearizable fuel cap ths c Hr) as L. split.
+  - now apply TreiberStackFacts.stack_no_invention.
+  - now apply TreiberStackFacts.stack_at_most_once.
+Qed.
+Print Assumptions C09_elim_exactly_one_popper_partial.
+
+(** FULL STATEMENT (node level), NOT PROVED in this development: in every reachable configuration a node handed
+    over through a collision slot sits in the descriptor of at most one popper and is not on the m_pNext chain from
+    m_Top (it never enters the list).  What is missing: an extra invariant ("a node held by a pop descriptor is
+    spent: its push is linearized, it is not in the stack, and no other pop descriptor holds it") threaded through
+    every step lemma of ElimProofs.  The client-visible consequences are the three theorems above. *)
+Definition elim_exactly_one_popper_statement : Prop :=
+  forall (fuel cap : nat) (ths : list (list nat * list Elim.op)) c,
+    Conc.reach (Elim.init_cfg fuel cap ths) c ->
+    let g := Conc.shared c in
+    (forall t1 t2 n, Elim.d_push g t1 = false -> Elim.d_push g t2 = false ->
+                     Elim.d_val g t1 = Some n -> Elim.d_val g t2 = Some n -> t1 = t2) /\
+    (forall t n l, Elim.d_push g t = false -> Elim.d_val g t = Some n ->
+                   TreiberProofs.chain (Elim.next g) (Elim.top g) l -> ~ In n l).
+
+(** ** non-vacuity *)
+(** a concrete 2-thread run with a contended CAS in which three pops return (two values, one empty) *)
 Example C09_treiber_nonvacuous :
   let r := Treiber.run_case [0; 50] [[[1;10]; [2]]; [[1;20]; [2]; [2]]] [0;1;0;1;1;0;0;1]%nat 1000 in
   snd r = true /\
   List.length (filter (is_cli "ret_pop") (map snd (fst r))) = 3%nat /\
   List.length (hist (fst r)) = 10%nat /\
   existsb (fun e => match e with EvAcc KCas _ false => true | _ => false end) (map snd (fst r)) = true.
+Proof. vm_compute. repeat split; reflexivity. Qed.
+
+(** a concrete 3-thread run of the elimination model (capacity 3, everybody draws slot 0) in which a pusher stores
+    op_collided into a waiting popper's descriptor: the run finishes, both pops return, and the history has 12 events *)
+Definition collision_in (tr : list (nat * ev)) : bool :=
+  existsb (fun te => match snd te with
+                     | EvAcc KSt (5 :: u :: _) true => negb (Z.eqb (Z.of_nat (fst te)) u)
+                     | _ => false
+                     end) tr.
+
+Example C09_elim_nonvacuous :
+  let r := Elim.run_case [0; 400; 1; 3; 1; 1; 0; 0; 0] [[[2]; [1;101]; [1;102]]; [[1;200]; [1;201]]; [[2]]] [0;1]%nat 2000 in
+  snd r = true /\ collision_in (fst r) = true /\
+  List.length (filter (is_cli "ret_pop") (map snd (fst r))) = 2%nat /\
+  List.length (hist (fst r)) = 12%nat.
 Proof. vm_compute. repeat split; reflexivity. Qed.
